@@ -121,6 +121,10 @@ OpOk ==
               /\ LET n == IF hasSnap THEN Count(T) ELSE Cardinality(ents)
                  IN V("EXPCAP", Ev.vcap <= 8 * n + 64, <<"capacity", Ev.vcap, "stored entries", n>>)
          ELSE Unchanged /\ Breach(<<"time went backwards", Ev.t, now>>)
+    [] Ev.op = "exportn" ->      \* sizes driver: n live entries inserted into a fresh collection, then exported
+         /\ Unchanged
+         /\ V("EXPCAP", Ev.vcap <= 8 * Ev.n + 64, <<"capacity", Ev.vcap, "entries", Ev.n, Ev.order>>)
+         /\ V("EXPORT", Ev.len = Ev.n /\ Ev.sorted = 1, <<"exported", Ev.len, "of", Ev.n, "sorted", Ev.sorted>>)
     [] OTHER -> Unchanged /\ Breach(<<"unknown op", Ev.op>>)
 
 \* an injected callback panic left the call (C18): valid structure, contents before or after
